@@ -208,6 +208,86 @@ func (s *vfSession) writeStep(x *vfSide, stunLike bool) {
 	s.afterStep()
 }
 
+// writeToPairStep: Conn.WriteToPair sends application data over ONE named pair.  It must refuse STUN-like payloads,
+// unknown pair ids and pairs that are not validated (Succeeded), and otherwise emit exactly one datagram with the
+// payload from that pair's local socket to that pair's remote address.
+func (s *vfSession) writeToPairStep(x *vfSide, stunLike bool) {
+	if s.broken != "" || x.closed || x.conn == nil {
+		return
+	}
+	sn := x.snapshot()
+	if sn.Err != nil {
+		return
+	}
+	infos := x.conn.GetCandidatePairsInfo()
+	d := s.data(x)
+	var id uint64
+	var target *vfPairSnap
+	switch {
+	case len(infos) == 0 || s.rng.IntN(8) == 0:
+		id = 1000000 + uint64(s.rng.IntN(1000)) //nolint:gosec // an id that was never handed out
+	default:
+		id = infos[s.rng.IntN(len(infos))].ID
+		for i := range sn.Pairs {
+			if sn.Pairs[i].ID == id {
+				target = &sn.Pairs[i]
+			}
+		}
+	}
+	payload := s.mkPayload(x, stunLike)
+	w0 := s.sw.wireLen()
+	s.step("write-to-pair", x.name, 0, fmt.Sprintf("id=%d len=%d stunlike=%v", id, len(payload), stunLike))
+	n, err := x.conn.WriteToPair(id, payload)
+	var emitted []*vfDgram
+	for _, dg := range s.sw.wireFrom(w0) {
+		if dg.Emitter == x.name {
+			emitted = append(emitted, dg)
+		}
+	}
+	s.r.count("c07_writes_to_pair", 1)
+	wit := map[string]any{"side": x.name, "pair_id": id, "len": len(payload)}
+	switch {
+	case stunLike:
+		s.r.set("c07_write_to_pair_kinds", "stun-like")
+		if err == nil || n != 0 || len(emitted) != 0 {
+			s.viol("C07", "write-to-pair-accepted-stun", fmt.Sprintf("%s.WriteToPair accepted a payload that parses as STUN (n=%d err=%v, %d datagram(s) emitted)", x.name, n, err, len(emitted)), wit)
+		}
+	case target == nil:
+		s.r.set("c07_write_to_pair_kinds", "unknown-id")
+		if err == nil || len(emitted) != 0 {
+			s.viol("C07", "write-to-unknown-pair", fmt.Sprintf("%s.WriteToPair(%d): no such pair is listed, yet n=%d err=%v, %d datagram(s) emitted", x.name, id, n, err, len(emitted)), wit)
+		}
+	case target.State != CandidatePairStateSucceeded:
+		s.r.set("c07_write_to_pair_kinds", "not-validated:"+target.State.String())
+		if err == nil || len(emitted) != 0 {
+			s.viol("C07", "write-to-unvalidated-pair", fmt.Sprintf("%s.WriteToPair on pair %s|%s in state %s: n=%d err=%v, %d datagram(s) emitted", x.name, target.Local, target.Remote, target.State, n, err, len(emitted)), wit)
+		}
+	default:
+		s.r.set("c07_write_to_pair_kinds", "validated")
+		if err != nil || n != len(payload) {
+			s.viol("C07", "write-to-pair-failed", fmt.Sprintf("%s.WriteToPair on the validated pair %s|%s failed: n=%d err=%v", x.name, target.Local, target.Remote, n, err), wit)
+
+			break
+		}
+		nt := strings.SplitN(target.Local, "/", 2)[0]
+		if len(emitted) != 1 || string(emitted[0].Data) != string(payload) ||
+			fmt.Sprintf("%s/%s|%s/%s", nt, emitted[0].SrcPriv, nt, emitted[0].Dst) != target.Local+"|"+target.Remote {
+			used := ""
+			if len(emitted) > 0 {
+				used = fmt.Sprintf("%s/%s|%s/%s", nt, emitted[0].SrcPriv, nt, emitted[0].Dst)
+			}
+			s.viol("C07", "write-to-pair-emission", fmt.Sprintf("%s.WriteToPair on %s|%s produced %d datagram(s), first over %s", x.name, target.Local, target.Remote, len(emitted), used), wit)
+
+			break
+		}
+		if sn.Selected != "" && sn.Selected == d.selAtTally && target.Local+"|"+target.Remote == sn.Selected {
+			d.selSentPk++
+			d.selSentBy += uint64(n) //nolint:gosec
+		}
+	}
+	s.afterStep()
+}
+
 // injectData places a data datagram from an arbitrary source towards one of x's sockets.
 func (s *vfSession) injectData(x *vfSide, known bool, stunLike bool) {
 	sn := x.snapshot()
@@ -409,7 +489,9 @@ func (s *vfSession) chaosC07(n int, budget map[*vfSide]int, pending *[]vfPending
 			x = s.B
 		}
 		switch k := s.rng.IntN(20); {
-		case k <= 3:
+		case k == 3:
+			s.writeToPairStep(x, s.rng.IntN(8) == 0)
+		case k <= 2:
 			s.writeStep(x, s.rng.IntN(8) == 0)
 		case k == 4:
 			s.injectData(x, false, s.rng.IntN(6) == 0)
